@@ -154,15 +154,35 @@ def open_bound_closed(a: Any, b: Any) -> bool:
 
 # ---------------------------------------------------------------------------
 
+def _rx_patterns(spec: dict[str, Any]) -> list[str]:
+    out: list[str] = []
+
+    def walk(n: Any) -> None:
+        if n[0] == "rx":
+            out.append(n[1])
+        elif n[0] in ("seq", "alt"):
+            for c in n[1]:
+                walk(c)
+        elif n[0] in ("star", "plus", "opt", "rep"):
+            walk(n[1])
+
+    for _, rhs in spec["rules"]:
+        walk(rhs)
+    return sorted(set(out))
+
+
 @st.composite
 def grammar_cases(draw: Any) -> dict[str, Any]:
     mode = draw(st.sampled_from(["text", "text", "bin"]))
     spec = draw(specgen.grammars({"mode": mode, "non_ascii": draw(st.booleans()), "depth": 2,
                                   "regex": draw(st.sampled_from(["guarded", "none", "empty"])) if mode == "text" else "guarded"}))
     if mode == "text" and draw(st.booleans()):
-        # put an awkward literal somewhere
+        # put an awkward literal somewhere; if the spec has regexes, often a LITERAL with the text of one of them
         name, rhs = spec["rules"][-1]
-        spec["rules"][-1] = [name, ["seq", [rhs, ["lit", draw(st.sampled_from(ODD_LITERALS))]]]]
+        pats = _rx_patterns(spec)
+        lit = draw(st.sampled_from(pats)) if pats and draw(st.booleans()) else draw(st.sampled_from(ODD_LITERALS))
+        where = draw(st.integers(0, 2))
+        spec["rules"][-1] = [name, ["seq", [rhs, ["lit", lit]]] if where == 0 else (["seq", [["lit", lit], rhs]] if where == 1 else ["alt", [["lit", lit], rhs]])]
     feature = draw(st.sampled_from(["plain", "plain", "generator", "generator_args", "parties"]))
     if mode == "text" and feature in ("generator", "generator_args") and len(spec["rules"]) >= 2:
         last = spec["rules"][-1][0]
@@ -184,7 +204,14 @@ def constraint_cases(draw: Any) -> dict[str, Any]:
     gname = draw(st.sampled_from(sorted(c07.GRAMMARS)))
     g = c07.GRAMMARS[gname]
     fms = [draw(c07.formulas(g, [], 2, True)) for _ in range(draw(st.integers(1, 3)))]
-    return {"kind": "constraints", "grammar": gname, "formulas": fms, "tree_seeds": draw(st.lists(st.integers(0, 10**6), min_size=3, max_size=3))}
+    if draw(st.integers(0, 2)) == 0:
+        # a slice selector with every combination of omitted / zero / positive bounds on a symbol with several children
+        sym = draw(st.sampled_from([s_ for s_ in g["syms"] if s_ in g["parents"] and s_ != "start"]))
+        a = draw(st.sampled_from([None, 0, 1, 2]))
+        b = draw(st.sampled_from([None, 0, 1, 2, 3]))
+        tmpl = draw(st.sampled_from(["str($0) != '+'", "len(str($0)) >= 2", "str($0) != '7'", "'1' in str($0)", "str($0) != ','"]))
+        fms.append(["expr", tmpl, [["slice", ["nt", sym], a, b]]])
+    return {"kind": "constraints", "grammar": gname, "formulas": fms, "tree_seeds": draw(st.lists(st.integers(0, 10**6), min_size=6, max_size=6))}
 
 
 def render_spec(spec: dict[str, Any]) -> str:
